@@ -242,9 +242,50 @@ def h1(part):
     return final_query(C, conds, dict(part=part, ns=ns, pid=pid, J=J))
 
 
+XCHECK = {'left': 0, 'done': 0, 'agree': 0, 'disagree': [], 'inconclusive': 0}
+
+
+def second_solver(C, neg):
+    """re-decide this validity query with two independent solver binaries (/usr/bin/z3 4.8.12, cvc5 1.0.3) on the
+    SMT-LIB2 dump; 'unsat' must be confirmed. Anything else than sat/unsat (timeout, (error ...)) is inconclusive."""
+    import os
+    import subprocess
+    import tempfile
+    C.solver.push()
+    C.solver.add(neg)
+    text = '(set-logic QF_LIA)\n' + C.solver.to_smt2()
+    C.solver.pop()
+    out = {}
+    fd, path = tempfile.mkstemp(suffix='.smt2')
+    try:
+        with os.fdopen(fd, 'w') as f:
+            f.write(text)
+        for name, cmd in (('z3-4.8.12', ['/usr/bin/z3', '-T:40', path]), ('cvc5-1.0.3', ['cvc5', '--tlimit=40000', path])):
+            try:
+                p = subprocess.run(cmd, capture_output=True, text=True, timeout=60)
+                o = p.stdout.strip().splitlines()
+                out[name] = 'error' if '(error' in p.stdout else (o[0] if o else 'empty')
+            except Exception as e:
+                out[name] = 'failed:%s' % type(e).__name__
+    finally:
+        os.unlink(path)
+    return out
+
+
 def final_query(C, conds, inputs):
-    r = C.check(z3.Not(z3.And(*conds.values())))
+    neg = z3.Not(z3.And(*conds.values()))
+    r = C.check(neg)
     if r == 'unsat':
+        if XCHECK['left'] > 0:
+            XCHECK['left'] -= 1
+            XCHECK['done'] += 1
+            res = second_solver(C, neg)
+            if any(v == 'sat' for v in res.values()):
+                XCHECK['disagree'].append(res)
+            elif all(v == 'unsat' for v in res.values()):
+                XCHECK['agree'] += 1
+            else:
+                XCHECK['inconclusive'] += 1
         return ('ok',)
     if r == 'unknown':
         return ('unknown', 'final validity query')
@@ -473,8 +514,17 @@ def run_bsx(fn, replay_fn):
             res['solver_time_s'] = 0.0
             res['cpu_s'] = res['wall_s'] = round(time.monotonic() - t0, 2)
             return res
-        with bsx.Shadow(packet):
-            st = bsx.explore(lambda: fn(part), L, budget_s=budget)
+        bsx.set_alphabet(part.get('alphabet', 'classes'))
+        XCHECK.update(left=1 if tier == 'quick' else 3, done=0, agree=0, disagree=[], inconclusive=0)
+        try:
+            with bsx.Shadow(packet):
+                st = bsx.explore(lambda: fn(part), L, budget_s=budget)
+        finally:
+            bsx.set_alphabet('classes')
+        res['notes'].append('second-solver cross-check of %d unsat queries: %d confirmed by both z3 4.8.12 and cvc5 1.0.3, '
+                            '%d inconclusive' % (XCHECK['done'], XCHECK['agree'], XCHECK['inconclusive']))
+        if XCHECK['disagree']:
+            res['errors'].append('second solver disagrees: %r' % (XCHECK['disagree'][:2],))
         for r in st['results']:
             if r[0] in ('ok', 'ok-rejected'):
                 res['confirmed'] += 1
@@ -704,6 +754,9 @@ def h2_parts(tier):
     for ty in range(7):
         for s in ('end', 'digit', 'slash', 'other'):
             out.append(dict(L=L, cls=[ty, s]))
+    if tier != 'quick':
+        # every Unicode code point (83 isdigit ranges, 68 decimal blocks of this interpreter) at a shorter length
+        out += [dict(L=6, cls=[ty, s], alphabet='full') for ty in (2, 5) for s in ('digit', 'slash', 'other')]
     return out
 
 
